@@ -390,6 +390,94 @@ theorem exPer_norm :
     ∧ (exPer.basis 0).start < (exPer.basis 0).kn (exPer.basis 0).order := by
   refine ⟨?_, ?_, ?_, ?_, ?_⟩ <;> decide +kernel
 
+/-! ### Two example volumes (direction 0: different domains and knots; direction 2: different orders) -/
+
+def exVA : Obj ℚ :=
+  { bases := #[exSu0, exSu1, exSu1], cps := ⟨[3, 2, 2, 1], #[0, 1, 2, 3, 4, 5, 6, 7, 8, 9, 10, 12]⟩,
+    rational := false }
+def exVB : Obj ℚ :=
+  { bases := #[exSv0, exSu1, exSv1], cps := ⟨[2, 2, 3, 1], #[1, 0, 2, 0, 3, 1, 0, 5, 4, 2, 2, 7]⟩,
+    rational := false }
+
+theorem exVA_wf : C06.WF exVA 3 where
+  size := rfl
+  valid := by
+    intro d
+    match d with
+    | ⟨0, _⟩ => exact exSu0_valid
+    | ⟨1, _⟩ => exact exSu1_valid
+    | ⟨2, _⟩ => exact exSu1_valid
+  shape := by decide
+
+theorem exVB_wf : C06.WF exVB 3 where
+  size := rfl
+  valid := by
+    intro d
+    match d with
+    | ⟨0, _⟩ => exact exSv0_valid
+    | ⟨1, _⟩ => exact exSu1_valid
+    | ⟨2, _⟩ => exact exSv1_valid
+  shape := by decide
+
+theorem exV_WF : exVA.WF ∧ exVB.WF := ⟨⟨by decide, by decide, by decide⟩, ⟨by decide, by decide, by decide⟩⟩
+
+/-! ### Two periodic quadratic curves of different continuity (`C^0` on `[0,3]`, `C^1` on `[0,4]`) -/
+
+def exPP0 : Basis ℚ := ⟨3, #[-1, 0, 0, 1, 2, 3, 3, 4], 0⟩
+def exPP1 : Basis ℚ := ⟨3, #[-2, -1, 0, 1, 2, 3, 4, 5, 6], 1⟩
+def exPPA : Obj ℚ := { bases := #[exPP0], cps := ⟨[4, 2], #[0, 0, 1, 2, 3, 1, 2, -1]⟩, rational := false }
+def exPPB : Obj ℚ := { bases := #[exPP1], cps := ⟨[4, 2], #[1, 0, 0, 2, -1, 1, 0, -2]⟩, rational := false }
+
+theorem exPP0_valid : exPP0.Valid where
+  order_pos := by decide
+  size_ge := by decide
+  sorted := by
+    intro i hi
+    have hi' : i + 1 < 8 := hi
+    have hi'' : i < 7 := by omega
+    interval_cases i <;> norm_num [Basis.kn, exPP0]
+  periodic_ge := by decide
+  periodic_le := by decide
+  start_lt_stop := by norm_num [Basis.start, Basis.stop, Basis.kn, exPP0]
+  ghosts := by
+    intro _ i hi
+    have hi' : i + 4 < 8 := hi
+    have hi'' : i < 4 := by omega
+    interval_cases i <;> norm_num [Basis.kn, Basis.start, Basis.stop, Basis.numFunctions, exPP0]
+
+theorem exPP1_valid : exPP1.Valid where
+  order_pos := by decide
+  size_ge := by decide
+  sorted := by
+    intro i hi
+    have hi' : i + 1 < 9 := hi
+    have hi'' : i < 8 := by omega
+    interval_cases i <;> norm_num [Basis.kn, exPP1]
+  periodic_ge := by decide
+  periodic_le := by decide
+  start_lt_stop := by norm_num [Basis.start, Basis.stop, Basis.kn, exPP1]
+  ghosts := by
+    intro _ i hi
+    have hi' : i + 4 < 9 := hi
+    have hi'' : i < 5 := by omega
+    interval_cases i <;> decide +kernel
+
+theorem exPPA_wf : C06.WF exPPA 1 where
+  size := rfl
+  valid := by
+    intro d
+    match d with
+    | ⟨0, _⟩ => exact exPP0_valid
+  shape := by decide
+
+theorem exPPB_wf : C06.WF exPPB 1 where
+  size := rfl
+  valid := by
+    intro d
+    match d with
+    | ⟨0, _⟩ => exact exPP1_valid
+  shape := by decide
+
 end C12
 
 end Splipy
